@@ -26,9 +26,9 @@ RULE = ("rle leg: rlencode(a, chunksize=c) for EVERY array over {0,1,2} of lengt
         "reference state (dict-sum merge, block-aggregate coarsening); big leg (thorough): three dense-upper coolers with 1450 bins "
         "(1,051,975 pixels) whose row runs straddle / start at / end at pixel row 1,000,000. Non-trivial: the transition writes a "
         "collection with >=2 pixels. Distinct by construction (state dedup by canonical reference state).")
-BOUNDS = {"quick": "hist depth 2", "thorough": "hist depth 3 + the three 1e6-row boundary coolers"}
+BOUNDS = {"quick": "hist depth 2; one 6000-contig table (integer chromosome column) through each of 7 producing routes", "thorough": "hist depth 3 + the three 1e6-row boundary coolers + the 6000-contig table"}
 ASSUMPTIONS = ["V is written against docs/schema_v3.rst with raw h5py only", "two files with the same reference state have the same futures under the alphabet"]
-EXPECT_CLASSES = {"*": ["rle", "index", "op:create", "op:create-unordered", "op:merge", "op:coarsen", "op:zoomify", "op:scool", "op:load", "op:cload"]}
+EXPECT_CLASSES = {"*": ["manycontigs:integer-chromosome-column", "rle", "index", "op:create", "op:create-unordered", "op:merge", "op:coarsen", "op:zoomify", "op:scool", "op:load", "op:cload"]}
 
 TAB = {"A": ((1, 1, 1, 1), (1, 1)), "B": ((1, 3), (2, 1, 1))}
 DATA = {
@@ -63,6 +63,8 @@ def units(tier):
                 yield {"leg": "hist", "first": ["C", p, d, ordered], "depth": depth}
     for perm in range(6):
         yield {"leg": "seqtables", "perm": perm}
+    for route in ("ordered", "unordered", "merge", "coarsen", "zoomify", "scool", "load"):
+        yield {"leg": "manycontigs", "route": route}
     if tier == "thorough":
         for k in range(3):
             yield {"leg": "big", "k": k}
@@ -449,6 +451,97 @@ def _big(R, k, only):
         scratch.rm(p)
 
 
+def _manycontigs(R, route, only):
+    """6000 one- and two-bin contigs with 23-character names: too many for an HDF5 enum header, so the LIBRARY stores bins/chrom as
+    plain integers (enum_path attribute) - the other side of a size threshold no small table reaches. Every producing route must still
+    satisfy the schema, with the chromosome column equal to the contig numbers."""
+    import cooler
+    from vmc import build as B
+    N = 6000
+    names = [f"scaffold_{k:05d}_xxxxxxxx" for k in range(N)]
+    rows = []
+    for k, nm in enumerate(names):
+        rows.append((nm, 0, 10))
+        if k % 1000 == 7:
+            rows.append((nm, 10, 15))
+    bdf = pd.DataFrame(rows, columns=["chrom", "start", "end"])
+    nb = len(bdf)
+    cells = [(0, 0), (0, nb - 1), (1, 1), (7, 8), (8, 9), (nb - 2, nb - 1), (nb - 1, nb - 1)]
+    pix = pd.DataFrame({"bin1_id": [c[0] for c in cells], "bin2_id": [c[1] for c in cells], "count": [3, 1, 4, 1, 5, 9, 2]})
+    R.add("states")
+    R.add("traces")
+    R.ev(1, 1)
+    R.add("transitions")
+    R.cls("manycontigs:" + route)
+    d = scratch.sub(f"c02mc_{route}")
+    inner = {"route": route}
+    try:
+        src = os.path.join(d, "src.cool")
+        out = os.path.join(d, "out.cool")
+        grp = "/"
+        want_chrom_of_bin = np.repeat(np.arange(N), [2 if k % 1000 == 7 else 1 for k in range(N)])
+        if route == "ordered":
+            cooler.create_cooler(out, bdf, pix, ordered=True)
+        elif route == "unordered":
+            cooler.create_cooler(out, bdf, iter([pix.iloc[4:], pix.iloc[:4]]), ordered=False, temp_dir=d)
+        elif route == "merge":
+            cooler.create_cooler(src, bdf, pix, ordered=True)
+            cooler.merge_coolers(out, [src, src], mergebuf=3)
+        elif route == "coarsen":
+            cooler.create_cooler(src, bdf, pix, ordered=True)
+            cooler.coarsen_cooler(src, out, 2, chunksize=3)
+            want_chrom_of_bin = np.arange(N)
+        elif route == "zoomify":
+            b10 = pd.DataFrame({"chrom": names, "start": 0, "end": 10})
+            cooler.create_cooler(src, b10, pd.DataFrame({"bin1_id": [0, 5, N - 2], "bin2_id": [0, 7, N - 1], "count": [1, 2, 3]}), ordered=True)
+            cooler.zoomify_cooler(src, out, [20], chunksize=2)
+            grp = "/resolutions/20"
+            want_chrom_of_bin = np.arange(N)
+        elif route == "scool":
+            cooler.create_scool(out, bdf, {"cellA": pix, "cellB": pix.iloc[:3]})
+            grp = "/cells/cellB"
+        elif route == "load":
+            bed = os.path.join(d, "bins.bed")
+            bdf.to_csv(bed, sep="\t", header=False, index=False)
+            coo = os.path.join(d, "in.coo")
+            pix.to_csv(coo, sep="\t", header=False, index=False)
+            code, so, exc = B.cli(["load", "-f", "coo", "--temp-dir", d, bed, coo, out])
+            if code != 0 or exc is not None:
+                R.mismatch("load-fails", inner, f"code={code} exc={exc!r:.200}")
+                return
+        v = h5ref.validate(out, grp)
+        if v:
+            R.mismatch("V:" + v[0], inner, f"{v[:3]}")
+        with h5py.File(out, "r") as f:
+            g = f[grp]
+            cid = g["bins/chrom"][:].astype(np.int64)
+            nm = [x.decode() if isinstance(x, bytes) else str(x) for x in g["chroms/name"][:]]
+            enum = h5py.check_dtype(enum=g["bins/chrom"].dtype)
+            if enum is not None:
+                back = {v: k for k, v in enum.items()}
+                ok = [back[int(c)] for c in cid] == [names[k] for k in want_chrom_of_bin]
+            else:
+                R.cls("manycontigs:integer-chromosome-column")
+                ok = cid.tolist() == want_chrom_of_bin.tolist()
+            if nm != names:
+                R.mismatch("chromosome-names!=input", inner, f"{nm[:3]}..{nm[-2:]}")
+            if not ok:
+                R.mismatch("bin-chromosome-column!=contig-of-each-bin", inner, f"first ids {cid[:12].tolist()} want {want_chrom_of_bin[:12].tolist()}")
+        # the ordinary interface names the same contigs
+        c = cooler.Cooler(out + "::" + grp)
+        last = c.bins()[len(want_chrom_of_bin) - 2:]
+        if [str(x) for x in last["chrom"]] != [names[k] for k in want_chrom_of_bin[-2:]] or list(last.index) != [len(want_chrom_of_bin) - 2, len(want_chrom_of_bin) - 1]:
+            R.mismatch("bins()-of-last-contigs", inner, f"{last.values.tolist()} index={list(last.index)}")
+        one = c.bins()["chrom"][7:10]
+        if [str(x) for x in one] != [names[k] for k in want_chrom_of_bin[7:10]] or list(one.index) != [7, 8, 9]:
+            R.mismatch("bins()['chrom']-slice", inner, f"{list(one)} index={list(one.index)}")
+        if c.extent(names[-1]) != (len(want_chrom_of_bin) - 1, len(want_chrom_of_bin)):
+            R.mismatch("extent-of-last-contig", inner, f"{c.extent(names[-1])}")
+        R.outcome((route, enum is None, int(c.info["nnz"])))
+    finally:
+        scratch.rm(d)
+
+
 def seams():
     import cooler.create._create as Cm
     for a in ("rlencode", "index_pixels", "index_bins"):
@@ -467,6 +560,8 @@ def run(unit, R, tier, only=None):
         _hist(R, unit, only)
     elif leg == "big":
         _big(R, unit["k"], only)
+    elif leg == "manycontigs":
+        _manycontigs(R, unit["route"], only)
     elif leg == "seqtables":
         _seqtables(R, unit["perm"], only)
     else:
